@@ -28,6 +28,7 @@ KEY_WBLK = "adf-write-block-new-chunk-wrong-offset"
 KEY_ZERO = "adf-zero-fill-overreads-zero-block"
 KEY_RBLK = "adf-read-block-incomplete-memset-overflow"
 KEY_UNSIGNED = "adf-write-data-unsigned-count"
+KEY_STATUS = "adf-chunk-write-failure-not-reported"
 WHAT = {
     KEY_WALL: "ADF_Write_All_Data (several chunks) rewrites the last chunk it fills with chunk_bytes = the bytes that go into it: the "
               "chunk's end tag and end pointer move inwards while the data-chunk table keeps the old size; after the node grows "
@@ -42,6 +43,9 @@ WHAT = {
     KEY_RBLK: "ADF_Read_Block_Data (several chunks that hold less than the block asked for: the node was re-dimensioned beyond its "
               "capacity and not yet rewritten) reports INCOMPLETE_DATA after memset(data_pointer, 0, total_bytes - bytes_read) into the "
               "caller's buffer of block_bytes bytes: heap-buffer-overflow WRITE (ASan) of up to the whole node's size",
+    KEY_STATUS: "an I/O error (EIO injected into one system call) inside a write that adds a data chunk or a data-chunk table is not "
+                "reported: the call returns success and the data written cannot be read back (state before /repo cdc1612 + 40a004d: "
+                "the status of ADFI_write_data_chunk_table was not checked)",
     KEY_UNSIGNED: "ADF_Write_Data counts the remaining bytes in an unsigned variable (state before /repo d6f9e64): a node grown to two "
                   "chunks and then shrunk below the first one cannot be written with cgio_write_data any more (ADF 14) and becomes unreadable",
 }
@@ -303,14 +307,19 @@ class Gen:
 class Oracle:
     """a plain Python array: the elements written since the last successful set_dimensions, nothing else.
     check(script, impl blocks) -> None or a description of the first answer that is wrong."""
-    def __init__(self):
+    def __init__(self, fault_mode=False):
         self.ty, self.dims, self.vals, self.written = "MT", [], [], False
+        self.fault_mode, self.dead = fault_mode, False      # fault injection: after a REPORTED failure nothing is specified
 
     def n(self):
         return prod(self.dims) if self.dims else 0
 
     def feed(self, line, status, data):
         w = line.split(" "); op = w[0]; tsz = TYPES.get(self.ty, 0)
+        if self.dead or op in ("arm", "disarm"):
+            return None
+        if self.fault_mode and status not in (0, None) and op not in ("rall", "rblk", "rsel"):
+            self.dead = True; return None
         if op in ("new", "pad", "reopen", "close"):
             return None if status == 0 else "%s failed with %s" % (op, status)
         if status is None:
@@ -384,8 +393,8 @@ def parse_blocks(out):
     return blocks
 
 
-def oracle_failure(out):
-    o = Oracle()
+def oracle_failure(out, fault_mode=False):
+    o = Oracle(fault_mode)
     for i, (line, status, data) in enumerate(parse_blocks(out)):
         bad = o.feed(line, status, data)
         if bad:
@@ -528,6 +537,70 @@ def pack(script):
             "script_sha1": hashlib.sha1("\n".join(script).encode()).hexdigest()}
 
 
+# ----------------------------------------------------------------------------- fault injection around chunk growth
+def fault_scenarios(path):
+    """writes that add a chunk / a table, each inside an arm .. disarm window; sizes above one 4096-byte block and sibling
+    data of several sizes so that chunk headers, table and data fall on both sides of block boundaries (the block buffer
+    then has to be flushed and reloaded in the middle of ADFI_write_data_chunk_table, where a failure must not be lost)"""
+    out = {}
+    for pad in (0, 700, 2900, 4000):
+        new = ["new " + path] + (["pad %d" % pad] if pad else [])
+        n1, n2, n3 = 1000, 2100, 3300
+        tail = ["disarm", "rall", "rsel 1 1 %d 7" % n2, "reopen", "rall"]
+        out["write_all adds the second chunk and the table (pad %d)" % pad] = \
+            new + ["dims I4 1 %d" % n1, "wall " + i4(range(100, 100 + n1)), "dims I4 1 %d" % n2, "arm", "wall " + i4(range(5000, 5000 + n2))] + tail
+        out["write_data adds the second chunk and the table (pad %d)" % pad] = \
+            new + ["dims I4 1 %d" % n1, "wall " + i4(range(100, 100 + n1)), "dims I4 1 %d" % n2, "arm", "wsel 1 1 %d 1 " % n2 + i4(range(7000, 7000 + n2))] + tail
+        out["write_block adds a third chunk (pad %d)" % pad] = \
+            new + ["dims I4 1 %d" % n1, "wall " + i4(range(100, 100 + n1)), "dims I4 1 %d" % n2, "wall " + i4(range(5000, 5000 + n2)),
+                   "dims I4 1 %d" % n3, "arm", "wblk %d %d " % (n2 - 50, n3) + i4(range(9000, 9000 + n3 - n2 + 51)), "disarm",
+                   "rblk %d %d" % (n2 - 50, n3), "rsel 1 %d %d 1" % (n2 - 50, n3), "reopen", "rblk %d %d" % (n2 - 50, n3)]
+        out["write_data adds a third chunk (pad %d)" % pad] = \
+            new + ["dims I4 1 %d" % n1, "wall " + i4(range(100, 100 + n1)), "dims I4 1 %d" % n2, "wall " + i4(range(5000, 5000 + n2)),
+                   "dims I4 1 %d" % n3, "arm", "wsel 1 %d %d 1 " % (n2 - 50, n3) + i4(range(9000, 9000 + n3 - n2 + 51)), "disarm",
+                   "rsel 1 %d %d 1" % (n2 - 50, n3), "rblk %d %d" % (n2 - 50, n3), "reopen", "rsel 1 %d %d 1" % (n2 - 50, n3)]
+    return out
+
+
+def fault_leg(ck, exe, work, thorough):
+    """EIO injected into each system call of a write that grows the node (harness/interpose.c): either the write reports
+    the failure, or everything it wrote reads back -- judged by the plain-array oracle.  (C14 owns the general statement;
+    this leg keeps the three writers' chunk-growth paths under it: cdc1612 + 40a004d.)"""
+    from checks import C15 as ip
+    ipso = ip.build_interposer()
+    fdir = os.path.join(work, "fault"); os.makedirs(fdir, exist_ok=True)
+    stat = {"scenarios": 0, "runs": 0, "failure_reported": 0, "success_and_data_correct": 0, "calls_per_window": {}}
+    bad = None
+    for name, script in fault_scenarios(os.path.join(fdir, "f.adf")).items():
+        trace = os.path.join(fdir, "trace.txt")
+        if os.path.exists(trace):
+            os.unlink(trace)
+        out, outcome, err = ip.run_ip(ipso, [exe], fdir, trace=trace, stdin="\n".join(script) + "\n")
+        if outcome != "ok" or oracle_failure(out):
+            raise vlib.Infra("fault leg: the scenario %r does not run cleanly without a fault (%s)" % (name, outcome))
+        ncalls = 0
+        if os.path.exists(trace):
+            for l in open(trace):
+                t = l.split(" ")
+                if t and t[0] != "-" and t[0].isdigit():
+                    ncalls = max(ncalls, int(t[0]) + 1)
+        stat["scenarios"] += 1; stat["calls_per_window"][name] = ncalls
+        for k in range(ncalls):
+            for kind in (("eio", "enospc") if thorough else ("eio",)):
+                out, outcome, err = ip.run_ip(ipso, [exe], fdir, fault="%d:%s" % (k, kind), stdin="\n".join(script) + "\n")
+                stat["runs"] += 1
+                sts = [b[1] for b in parse_blocks(out)]
+                f = oracle_failure(out, fault_mode=True) if outcome == "ok" else {"outcome": outcome, "stderr": err[-300:]}
+                if any(x not in (0, None) for x in sts):
+                    stat["failure_reported"] += 1
+                elif not f:
+                    stat["success_and_data_correct"] += 1
+                if f and bad is None:
+                    bad = dict(pack(script), mode="fault", scenario=name, fault="%d:%s" % (k, kind), failure=f, what=WHAT[KEY_STATUS],
+                               oracle="plain Python array; a write that reported success must read back")
+    return stat, bad
+
+
 # ----------------------------------------------------------------------------- the check
 def run_extra(ck, pid="C02c"):
     thorough = ck.tier == "thorough"
@@ -568,7 +641,7 @@ def run_extra(ck, pid="C02c"):
     # ---- witnesses and corpus through the model of the detected variant (the model must predict them byte for byte)
     fixed = [("corpus:" + f, lines) for f, key, sw, lines in corpus_scripts(work)]
     stats = {"histories": 0, "ops": 0, "by_max_chunks": {"0": 0, "1": 0, "2": 0, ">=3": 0}, "counters": {}, "skipped_ops": 0,
-             "histories_with_unsafe_steps": 0, "crashes_predicted_by_model": 0}
+             "histories_with_unsafe_steps": 0, "crashes_predicted_by_model": 0, "hypothesis_monitor_hits": {}}
 
     def account(a, nontriv_key, sample=None):
         stats["histories"] += 1; stats["ops"] += a["nops"]; stats["skipped_ops"] += a["skips"]
@@ -578,6 +651,9 @@ def run_extra(ck, pid="C02c"):
             stats["counters"][k] = max(stats["counters"].get(k, 0), v) if k == "max_chunks" else stats["counters"].get(k, 0) + v
         if a["viols"]:
             stats["histories_with_unsafe_steps"] += 1
+        for k, v in a["viols"]:
+            kind = v.split(" ")[1]
+            stats["hypothesis_monitor_hits"][kind] = stats["hypothesis_monitor_hits"].get(kind, 0) + 1
         ck.cov["traces_validated_against_impl"] += 1
         ck.case(nontriv_key, sample=sample)
 
@@ -606,7 +682,7 @@ def run_extra(ck, pid="C02c"):
     jobs = []
     for name, script in fixed:
         jobs.append((name, script, pool.submit(run_hist, exe, script, cfg)))
-    n_hist = 260 if thorough else 48
+    n_hist = 1500 if thorough else 150
     for i in range(n_hist):
         g = Gen(ck.rng, os.path.join(work, "h%d.adf" % i), big=(i % 4 == 3), multi_d=(i % 3 == 1))
         script = g.history(ck.rng.choice([28, 40, 60]) if not thorough else ck.rng.choice([30, 50, 80]))
@@ -618,6 +694,10 @@ def run_extra(ck, pid="C02c"):
         if os.path.exists(p):
             os.unlink(p)
     pool.shutdown()
+    fstat, fbad = fault_leg(ck, exe, work, thorough)
+    ex["fault_injection_around_growth"] = fstat
+    if fbad:
+        findings.setdefault(KEY_STATUS, fbad)
     ex["histories"] = stats
     ck.extra.setdefault("input_distribution_c02c", stats)
 
